@@ -89,7 +89,7 @@ func runC03(s *kernel.Sim, cfg string) {
 	var items []*c03Item
 	for i := 0; i < nItems; i++ {
 		it := &c03Item{
-			tr:   kernel.Pick(t, []string{"dot", "doq", "doh-h1", "doh-h2", "doh-h2"}, "transport"),
+			tr:   kernel.Pick(t, []string{"dot", "doq", "doh-h1", "doh-h2", "doh-h2", "doh-h3"}, "transport"),
 			sni:  kernel.Pick(t, snis, "sni"),
 			name: fmt.Sprintf("c03-%d.ident.test.", i),
 		}
@@ -126,7 +126,7 @@ func runC03(s *kernel.Sim, cfg string) {
 			case "doq":
 				c03DoQ(tk, n, ip, g)
 			default:
-				c03DoH(tk, n, ip, g, g[0].tr == "doh-h2")
+				c03DoH(tk, n, ip, g, g[0].tr)
 			}
 		})
 	}
@@ -255,7 +255,8 @@ func c03DoQ(tk *task, n *simnet.Net, ip netip.Addr, g []*c03Item) {
 	}
 }
 
-func c03DoH(tk *task, n *simnet.Net, ip netip.Addr, g []*c03Item, useH2 bool) {
+func c03DoH(tk *task, n *simnet.Net, ip netip.Addr, g []*c03Item, ver string) {
+	useH2 := ver != "doh-h1"
 	dial := func(ctx context.Context, cfg *tls.Config) (net.Conn, error) {
 		raw, err := n.Dial(addrDoH, n.ClientAddr(ip))
 		if err != nil {
@@ -269,7 +270,11 @@ func c03DoH(tk *task, n *simnet.Net, ip netip.Addr, g []*c03Item, useH2 bool) {
 		return tc, nil
 	}
 	var rt http.RoundTripper
-	if useH2 {
+	if ver == "doh-h3" {
+		h3, done := h3Transport(n, ip, g[0].sni)
+		defer done()
+		rt = h3
+	} else if useH2 {
 		h2 := &http2.Transport{
 			TLSClientConfig: clientTLS(g[0].sni, "h2"),
 			DialTLSContext: func(ctx context.Context, _, _ string, cfg *tls.Config) (net.Conn, error) {
@@ -298,7 +303,7 @@ func c03DoH(tk *task, n *simnet.Net, ip netip.Addr, g []*c03Item, useH2 bool) {
 		if it.hasAuth {
 			req.SetBasicAuth(it.user, it.pass)
 		}
-		ctx, cancel := context.WithTimeout(context.Background(), 20*time.Second)
+		ctx, cancel := context.WithTimeout(context.Background(), 100*time.Second)
 		defer cancel()
 		hr, err := rt.RoundTrip(req.WithContext(ctx))
 		if err != nil {
